@@ -55,11 +55,22 @@ HEADER = (K.CASE_HEADER + "From V Require Import Model.Interp.\n"
 
 
 # ------------------------------------------------------------------ generators
-def gen_grid(rng, lo=2, hi=5):
+def gen_grid(rng, lo=2, hi=5, force_big=False):
     shape = tuple(rng.randint(lo, hi) for _ in range(3))
     hs = [[K.dy_pos(rng) for _ in range(n)] for n in shape]
     origin = [K.dy(rng, bits=2) for _ in range(3)]
-    return dict(shape=shape, hs=hs, origin=origin)
+    big = force_big or rng.random() < 0.4
+    if big:
+        # projected (UTM-like) and negative absolute coordinates, 1e5 .. 1e7; still exact dyadics
+        r = rng.random()
+        if r < 0.4:
+            base = [5e5, 6.5e6, -2000.]
+        elif r < 0.7:
+            base = [-5e5, -6.5e6, -1e5]
+        else:
+            base = [rng.choice([-1, 1]) * float(rng.randint(10**5, 10**7)) for _ in range(3)]
+        origin = [b + o for b, o in zip(base, origin)]
+    return dict(shape=shape, hs=hs, origin=origin, big_origin=big)
 
 
 def nodes_of(g, d):
@@ -69,9 +80,10 @@ def nodes_of(g, d):
     return out
 
 
-POS_KINDS = ['generic', 'node', 'centre', 'lo_node', 'hi_node', 'outer_lo', 'outer_hi',
-             'bnd_lo', 'bnd_hi', 'outside_lo', 'outside_hi']
-INTERIOR_KINDS = ('generic', 'node', 'centre', 'lo_node', 'hi_node')
+INTERIOR_KINDS = ('generic', 'node', 'centre', 'lo_node', 'hi_node', 'near_lo_in', 'near_hi_in')
+OUTER_KINDS = ('outer_lo', 'outer_hi', 'bnd_lo', 'bnd_hi', 'outside_lo', 'outside_hi',
+               'near_lo_out', 'near_hi_out', 'near_lo_out', 'near_hi_out')
+POS_KINDS = list(INTERIOR_KINDS) + sorted(set(OUTER_KINDS))
 
 
 def gen_coord(rng, nodes, kind):
@@ -92,6 +104,18 @@ def gen_coord(rng, nodes, kind):
         return nodes[1]
     if kind == 'hi_node':
         return nodes[n - 1]
+    if kind.startswith('near_'):
+        # sweep towards the second / second-to-last node from inside the outermost cell
+        # ('_out': must be NaN) or from the inner side ('_in'): distance = cell width * 2^-k
+        k = rng.choice([1, 2, 4, 7, 10, 14, 18, 20])
+        lo = 'lo' in kind
+        if kind.endswith('_out'):
+            w = (nodes[1] - nodes[0]) if lo else (nodes[n] - nodes[n - 1])
+            return nodes[1] - w / 2**k if lo else nodes[n - 1] + w / 2**k
+        w = nodes[n - 1] - nodes[1]
+        if w == 0:
+            return nodes[1]
+        return nodes[1] + w / 2**k if lo else nodes[n - 1] - w / 2**k
     if kind == 'outer_lo':
         return nodes[0] + (nodes[1] - nodes[0]) * rng.randint(1, 15) / 16
     if kind == 'outer_hi':
@@ -126,11 +150,11 @@ def gen_receiver(rng, g, malformed=False):
     kinds = []
     for d in range(3):
         if malformed and (d == rng.randrange(3) or rng.random() < 0.3):
-            kinds.append(rng.choice(POS_KINDS[5:]))
+            kinds.append(rng.choice(OUTER_KINDS))
         else:
             kinds.append(rng.choice(INTERIOR_KINDS))
     if malformed and all(k in INTERIOR_KINDS for k in kinds):
-        kinds[rng.randrange(3)] = rng.choice(POS_KINDS[5:])
+        kinds[rng.randrange(3)] = rng.choice(OUTER_KINDS)
     xyz = [float(gen_coord(rng, nodes_of(g, d), kinds[d])) for d in range(3)]
     az, el = gen_angle(rng)
     return dict(xyz=xyz, az=az, el=el, fac=rot(az, el), kinds=kinds)
@@ -186,6 +210,21 @@ def cancelling_components(recs):
         if any(abs(f) > EPS for f in fs) and abs(sum(fs)) <= EPS:
             out.append(c)
     return out
+
+
+def sweep_receivers(rng, g):
+    """NaN-policy sweep: for every direction and side, receivers approaching node 1 / n-1
+    from inside the outermost cell (two distances) and from the inner side (one)."""
+    recs = []
+    for d in range(3):
+        for side in ('lo', 'hi'):
+            for kind in (f'near_{side}_out', f'near_{side}_out', f'near_{side}_in'):
+                kinds = [rng.choice(('generic', 'centre', 'node')) for _ in range(3)]
+                kinds[d] = kind
+                xyz = [float(gen_coord(rng, nodes_of(g, dd), kinds[dd])) for dd in range(3)]
+                az, el = gen_angle(rng)
+                recs.append(dict(xyz=xyz, az=az, el=el, fac=rot(az, el), kinds=kinds))
+    return recs
 
 
 def gen_field(rng, shape, cplx, big=None):
@@ -279,7 +318,21 @@ def electric_group(rng, gi, thorough):
         if b['kind'] == 'guard_mix' and big is None:
             big = 2
             f[2] = f[2] * 2.0**40
-    return dict(kind='electric', g=g, cplx=cplx, f=f, recs=recs, batches=batches, big=big)
+    # history on ONE grid object: repeated source-field requests of the same points
+    def fkind():
+        t = rng.random()
+        return None if t < 0.35 else (-K.dy_pos(rng) if t < 0.7 else K.dy_pos(rng))
+    history = [(rng.randrange(2), fkind(), rng.choice([0.5, 2.0, 3.0, 1.0, K.dy_pos(rng)]))
+               for _ in range(8)]
+    return dict(kind='electric', g=g, cplx=cplx, f=f, recs=recs, batches=batches, big=big,
+                history=history)
+
+
+def sweep_group(rng):
+    g = gen_grid(rng, 2, 3, force_big=True)
+    cplx = rng.random() < 0.5
+    return dict(kind='electric', g=g, cplx=cplx, f=gen_field(rng, g['shape'], cplx),
+                recs=sweep_receivers(rng, g), batches=[], big=None, history=[], sweep=True)
 
 
 def electric_text(c):
@@ -295,7 +348,7 @@ def electric_text(c):
             L.append(f"Eval vm_compute in map oo (get_receiver_batch Qle_bool nx ny nz ndx ndy ndz eps true "
                      f"fx{p} fy{p} fz{p} {coq_batch(b)}).")
     nx, ny, nz = g['shape']
-    for r in c['recs']:
+    for r in ([] if c.get('sweep') else c['recs']):
         L.append(f"Eval vm_compute in match point_vector Qle_bool nx ny nz ndx ndy ndz {rx_args(r)} with "
                  f"| Some t => (1, (dump3 out_q nx (ny+1) (nz+1) (fst (fst t)), "
                  f"dump3 out_q (nx+1) ny (nz+1) (snd (fst t)), dump3 out_q (nx+1) (ny+1) nz (snd t))) "
@@ -319,6 +372,7 @@ def impl_receiver(fld, recs, form='tuple', magnetic=False):
 
 def brief_rx(g, r):
     return dict(shape=list(g['shape']), hs=g['hs'], origin=g['origin'], xyz=r['xyz'],
+                big_origin=g.get('big_origin', False),
                 azimuth=r['az'], elevation=r['el'], factors=r['fac'], kinds=r['kinds'])
 
 
@@ -346,11 +400,32 @@ def electric_check(c, out, dis, hist, seen):
         return mod
 
     nevals = 0
+    hist['grid_big_origin' if g.get('big_origin') else 'grid_small_origin'] += 1
     for r in c['recs']:
         vals = [parse_opt(ans[k + p])[0] for p in range(parts)]
         k += parts
         impl = impl_receiver(fld, r)[0]
         cmp_rx(r, vals, impl, 'fields.get_receiver(linear) differs from Model.Interp.get_receiver')
+        nevals += 1
+        # other input forms and the other interpolation method: same NaN mask
+        import emg3d
+        co5 = tuple(r['xyz']) + (r['az'], r['el'])
+        alt = {'Rx instance': np.atleast_1d(np.asarray(fields.get_receiver(
+                   fld, emg3d.RxElectricPoint(co5), 'linear')))[0],
+               'list of one Rx': np.atleast_1d(np.asarray(fields.get_receiver(
+                   fld, [emg3d.RxElectricPoint(co5)], 'linear')))[0]}
+        for nm, v in alt.items():
+            if not (np.isnan(v) and np.isnan(impl)) and v != impl:
+                dis.append({'what': f'get_receiver(linear) with {nm} differs from the tuple form',
+                            'case': brief_rx(g, r), 'impl': str(v), 'model': str(impl)})
+        cub = np.nan                      # the cubic spline needs >= 4 points per direction
+        if min(g['shape']) >= 4:
+            cub = np.atleast_1d(np.asarray(fields.get_receiver(fld, co5, 'cubic')))[0]
+            hist['rx_cubic_mask_checked'] += 1
+        if vals[0] is None and not np.isnan(cub):
+            dis.append({'what': "get_receiver(method='cubic') returns a number where the NaN policy "
+                                "(Model.Interp.outer_mask) requires NaN", 'case': brief_rx(g, r),
+                        'impl': str(cub), 'model': 'nan'})
         nevals += 1
         guard = any(0 < abs(x) <= 1e-7 for x in r['fac'])
         key = (tuple(r['kinds']), tuple(0 if x == 0 else (1 if abs(x) <= EPS else 2) for x in r['fac']))
@@ -380,7 +455,8 @@ def electric_check(c, out, dis, hist, seen):
             seen.add(('batch', g['shape'], b['kind'], len(b['recs']), b['form'], tuple(canc)))
     # point vectors
     shp = FSH_E(g['shape'])
-    for r in c['recs']:
+    model_vec = {}
+    for ri, r in enumerate([] if c.get('sweep') else c['recs']):
         a = ans[k]
         k += 1
         co = tuple(r['xyz']) + (r['az'], r['el'])
@@ -406,9 +482,13 @@ def electric_check(c, out, dis, hist, seen):
             dis.append({'what': 'point_vector dump has wrong size', 'case': brief_rx(g, r)})
             continue
         off = 0
+        mvs = []
         for comp in range(3):
-            mv = np.array([float(x) for x in fr[off:off + sizes[comp]]]).reshape(shp[comp])
+            mvs.append(np.array([float(x) for x in fr[off:off + sizes[comp]]]).reshape(shp[comp]))
             off += sizes[comp]
+        model_vec[ri] = np.r_[mvs[0].ravel('F'), mvs[1].ravel('F'), mvs[2].ravel('F')]
+        for comp in range(3):
+            mv = mvs[comp]
             d = np.abs(impl[comp] - mv)
             if np.max(d) > 1e-9 * max(1.0, float(np.max(np.abs(mv)))):
                 idx = np.unravel_index(int(np.argmax(d)), d.shape)
@@ -419,7 +499,53 @@ def electric_check(c, out, dis, hist, seen):
                 break
         if any(kd in ('outer_lo', 'outer_hi', 'bnd_lo', 'bnd_hi') for kd in r['kinds']):
             seen.add(('pv_outer', g['shape'], tuple(r['kinds'])))
+    nevals += history_check(c, grid, model_vec, dis, hist, seen)
     return nevals
+
+
+def history_check(c, grid, model_vec, dis, hist, seen):
+    """Repeated get_source_field requests on the SAME grid object (which has
+    already served one _point_vector call per point): the model is a function
+    of (grid, point, frequency, strength) only, so every answer must equal
+    factor * Model.Interp.point_vector, and fields returned earlier must not
+    change afterwards."""
+    import emg3d
+    from emg3d import fields
+    g = c['g']
+    returned, done, n = [], [], 0
+    for step, (ri, freq, strength) in enumerate(c['history']):
+        if ri not in model_vec:
+            continue
+        r = c['recs'][ri]
+        co = tuple(r['xyz']) + (r['az'], r['el'])
+        src = emg3d.TxElectricPoint(co, strength=strength)
+        sf = src.get_field(grid, freq) if step % 2 else fields.get_source_field(grid, src, freq)
+        fac = strength if freq is None else -sf.smu0 * strength
+        want = model_vec[ri] * fac
+        done.append({'point': ri, 'frequency': freq, 'strength': strength})
+        n += 1
+        hist['history_' + ('none' if freq is None else ('laplace' if freq < 0 else 'frequency'))] += 1
+        sc = max(1e-300, float(np.max(np.abs(want))))
+        if np.max(np.abs(sf.field - want)) > 1e-9 * sc:
+            kk = int(np.argmax(np.abs(sf.field - want)))
+            dis.append({'what': 'get_source_field(TxElectricPoint) depends on the call history of the grid '
+                                'object (differs from factor * Model.Interp.point_vector)',
+                        'case': brief_rx(g, r), 'history': [{'op': '_point_vector once per point'}] + list(done),
+                        'impl': str(complex(sf.field[kk])), 'model': str(complex(want[kk]))})
+            break
+        returned.append((sf, want, len(done)))
+    else:
+        for sf, want, upto in returned:
+            sc = max(1e-300, float(np.max(np.abs(want))))
+            if np.max(np.abs(sf.field - want)) > 1e-9 * sc:
+                dis.append({'what': 'a source field returned earlier changed after later get_source_field calls',
+                            'case': brief_rx(g, c['recs'][done[upto - 1]['point']]),
+                            'history': list(done), 'returned_at_step': upto})
+                break
+    if n >= 2:
+        seen.add(('history', g['shape'], tuple((d['point'], d['frequency'] is None,
+                                                (d['frequency'] or 1) < 0) for d in done)))
+    return n
 
 
 def source_field_check(rng, n, dis):
@@ -531,16 +657,18 @@ def kernel_check(c, out, dis):
     return n
 
 
-def magnetic_group(rng):
+def magnetic_group(rng, sweep=False):
     """One grid (mu_r = 1), one E field, a frequency (Laplace s real, or
     frequency domain), receivers in the inner range (+ a few outside)."""
-    g = gen_grid(rng, 2, 4)
+    g = gen_grid(rng, 2, 3 if sweep else 4, force_big=sweep)
     cplx = rng.random() < 0.5
     laplace = rng.random() < 0.5
     cplx = cplx and not laplace          # a Laplace-domain Field is real
     freq = -K.dy_pos(rng) if laplace else K.dy_pos(rng)
     e = gen_field(rng, g['shape'], cplx)
     recs = [gen_receiver(rng, g, malformed=(rng.random() < 0.2)) for _ in range(4)]
+    if sweep:
+        recs = sweep_receivers(rng, g)[::2]
     batches = [gen_batch(rng, g, rng.choice(['pm_az', 'pm_el', 'antiparallel', 'crossed4', 'random']))
                for _ in range(2)]
     return dict(kind='magnetic', g=g, cplx=cplx, freq=freq, e=e, recs=recs, batches=batches)
@@ -684,10 +812,11 @@ def correspondence(ctx):
     rng = ctx.rng
     ngroups = 64 if ctx.thorough else 10
     groups = [electric_group(rng, i, ctx.thorough) for i in range(ngroups)]
+    groups += [sweep_group(rng) for _ in range(6 if ctx.thorough else 2)]
     texts = [(f"c09_e_{i}", electric_text(c)) for i, c in enumerate(groups)]
     kcases = [kernel_case(rng) for _ in range(16 if ctx.thorough else 4)]
     texts += [(f"c09_k_{i}", kernel_text(c)) for i, c in enumerate(kcases)]
-    mgroups = [magnetic_group(rng) for _ in range(24 if ctx.thorough else 6)]
+    mgroups = [magnetic_group(rng, sweep=(i == 0)) for i in range(24 if ctx.thorough else 6)]
     texts += [(f"c09_m_{i}", magnetic_text(c)) for i, c in enumerate(mgroups)]
     res = V.coq_eval_many(texts)
     dis, seen = [], set()
@@ -726,7 +855,13 @@ def correspondence(ctx):
                 "1e-8 degrees of an axis (both sides of the 1e-10 guard, the guarded component scaled by "
                 "2^40 so that a skipped component is visible). distinct non-trivial = distinct (shape, "
                 "position kinds, factor classes) with a non-generic coordinate or a guarded factor, plus "
-                "distinct error / outer-cell point-vector cases. Kernel cases: _edge_curl_factor compiled and "
+                "distinct error / outer-cell point-vector cases. 40% of the grids have projected / negative origins of "
+                "1e5..1e7 (exact dyadics); the position kinds include sweeps towards node 1 / n-1 from inside the "
+                "outermost cell (distance = cell width * 2^-k, k up to 20; must be NaN) and from the inner side; every "
+                "single receiver is also sampled as Rx instance, list of Rx, and with method='cubic' (NaN mask only). "
+                "Histories: per group 8 get_source_field / Tx.get_field requests of 2 points on the one grid object "
+                "(frequency None / Laplace / frequency domain, strengths != 1), each compared with factor * model "
+                "vector, earlier returned fields re-compared at the end. Kernel cases: _edge_curl_factor compiled and "
                 ".py_func vs the generated model on 1..3^3 shapes with pre-filled outputs. Magnetic groups: "
                 "mu_r = 1, Laplace or frequency domain, 4 receivers sampled through get_magnetic_field one per call + 2 multi-receiver calls with cancelling orientation sets, and "
                 "_point_vector_magnetic(frequency=None) vs -curl^T(face_vector) for interior positions",
@@ -908,6 +1043,107 @@ def search_batch(np_seed):
     return None
 
 
+def search_nan_sweep(np_seed):
+    """NaN policy on grids with large / negative absolute coordinates: receivers
+    swept across the outermost cells up to node 1 / n-1 from both sides; all
+    field types, both interpolation methods, tuple / Rx / list input."""
+    import emg3d
+    from emg3d import fields
+    npr = np.random.RandomState(np_seed)
+    shape = tuple(int(npr.randint(4, 7)) for _ in range(3))
+    hs = [npr.uniform(20., 200., n) for n in shape]
+    bases = [[5e5, 6.5e6, -3000.], [-5e5, -6.5e6, -1e5], [3.2e5, 4.1e6, 0.],
+             [float(npr.uniform(-1e7, 1e7)) for _ in range(3)], [0., 0., 0.]]
+    origin = np.array(bases[npr.randint(len(bases))]) + npr.uniform(-50, 50, 3)
+    grid = emg3d.TensorMesh(hs, origin)
+    freq = float(npr.choice([1.0, -2.0]))
+    ef = emg3d.Field(grid, frequency=freq)
+    ef.field = npr.standard_normal(ef.field.size) + (
+        1j * npr.standard_normal(ef.field.size) if freq > 0 else 0)
+    model = emg3d.Model(grid, property_x=npr.uniform(0.1, 10, grid.shape_cells))
+    hf = fields.get_magnetic_field(model, ef)
+    nds = [np.asarray(grid.nodes_x), np.asarray(grid.nodes_y), np.asarray(grid.nodes_z)]
+    base = {'np_seed': int(np_seed), 'kind': 'nan_sweep', 'shape': list(shape), 'frequency': freq,
+            'hx': [float.hex(float(v)) for v in hs[0]], 'hy': [float.hex(float(v)) for v in hs[1]],
+            'hz': [float.hex(float(v)) for v in hs[2]], 'origin': [float.hex(float(v)) for v in origin]}
+    for d in range(3):
+        n = nds[d]
+        for side in (0, 1):
+            node = n[1] if side == 0 else n[-2]
+            w = (n[1] - n[0]) if side == 0 else (n[-1] - n[-2])
+            sgn = -1.0 if side == 0 else 1.0
+            for frac in (0.9, 0.5, 0.1, 1e-2, 1e-3, 1e-5, 1e-7):
+                delta = max(w * frac, 16 * np.spacing(abs(node)))
+                for outward in (True, False):
+                    xyz = [float(npr.uniform(m[1], m[-2])) for m in nds]
+                    xyz[d] = float(node + sgn * delta) if outward else float(node - sgn * min(delta, 0.4 * (n[-2] - n[1])))
+                    az, el = float(npr.uniform(-180, 180)), float(npr.uniform(-90, 90))
+                    co = tuple(xyz) + (az, el)
+                    for magnetic, fld in ((False, ef), (True, hf)):
+                        Rx = emg3d.RxMagneticPoint if magnetic else emg3d.RxElectricPoint
+                        for method in ('linear', 'cubic'):
+                            for form, arg in (('tuple', co), ('Rx', Rx(co)), ('list', [Rx(co), Rx(co)])):
+                                v = complex(np.atleast_1d(np.asarray(fields.get_receiver(fld, arg, method)))[0])
+                                bad = (not np.isnan(v)) if outward else (np.isnan(v) and method == 'linear')
+                                if bad:
+                                    return dict(base, signature=(
+                                        'receiver in an outermost cell returns a number instead of NaN' if outward
+                                        else 'receiver inside the second to second-last cell returns NaN'),
+                                        direction='xyz'[d], side=['low', 'high'][side],
+                                        distance_to_node=float(delta), node=float.hex(float(node)),
+                                        field='magnetic' if magnetic else 'electric', method=method, form=form,
+                                        receiver=[float.hex(v_) for v_ in xyz] + [az, el],
+                                        observed=str(v), required='nan' if outward else 'a number')
+    return None
+
+
+def search_history(np_seed):
+    """History independence of point sources: repeated get_source_field requests
+    on ONE grid object must all equal factor * (independent oracle vector), and
+    fields handed out earlier must not change."""
+    import emg3d
+    from emg3d import fields
+    npr = np.random.RandomState(np_seed)
+    grid = _rand_problem(npr)
+    pts = []
+    for _ in range(3):
+        xyz, az, el = _rand_rx(npr, grid)
+        pts.append(tuple(xyz) + (az, el))
+    ops, returned = [], []
+    for step in range(12):
+        pi = int(npr.randint(len(pts)))
+        freq = [None, -float(npr.uniform(0.5, 3)), float(npr.uniform(0.5, 3))][int(npr.randint(3))]
+        strength = float(npr.choice([0.5, 2.0, 3.0, 1.0]))
+        magnetic = bool(npr.rand() < 0.2) and freq is not None
+        Tx = emg3d.TxMagneticPoint if magnetic else emg3d.TxElectricPoint
+        ops.append({'point': list(pts[pi]), 'frequency': freq, 'strength': strength,
+                    'source': Tx.__name__})
+        sf = fields.get_source_field(grid, Tx(pts[pi], strength=strength), freq)
+        if magnetic:
+            fresh = emg3d.TensorMesh([np.array(h) for h in grid.h], np.array(grid.origin))
+            want = fields.get_source_field(fresh, Tx(pts[pi], strength=strength), freq).field.copy()
+        else:
+            ov = oracle_vector(grid, pts[pi][:3], rot(pts[pi][3], pts[pi][4]), True)
+            vec = np.r_[ov[0].ravel('F'), ov[1].ravel('F'), ov[2].ravel('F')]
+            want = vec * (strength if freq is None else -sf.smu0 * strength)
+        sc = max(1e-300, float(np.max(np.abs(want))))
+        rec = {'np_seed': int(np_seed), 'kind': 'history', 'shape': list(grid.shape_cells),
+               'hx': [float.hex(float(v)) for v in grid.h[0]], 'hy': [float.hex(float(v)) for v in grid.h[1]],
+               'hz': [float.hex(float(v)) for v in grid.h[2]],
+               'origin': [float.hex(float(v)) for v in grid.origin]}
+        if np.max(np.abs(sf.field - want)) > 1e-9 * sc:
+            kk = int(np.argmax(np.abs(sf.field - want)))
+            return dict(rec, signature='point source field depends on earlier requests on the same grid object',
+                        history=ops, failing_step=step, observed=str(complex(sf.field[kk])),
+                        required=str(complex(want[kk])), flat_index=kk)
+        returned.append((sf, want, step))
+        for sf0, want0, st0 in returned:
+            if np.max(np.abs(sf0.field - want0)) > 1e-9 * max(1e-300, float(np.max(np.abs(want0)))):
+                return dict(rec, signature='a source field returned earlier was changed by a later request',
+                            history=ops, returned_at_step=st0, changed_after_step=step)
+    return None
+
+
 def search_reciprocity(np_seed, tol=1e-9):
     """Exchange an electric point source and an electric point receiver on a
     tiny solve; same for magnetic points."""
@@ -969,6 +1205,20 @@ def search(ctx, broken):
             if h:
                 hits.append(h)
                 break
+    nsw = 8 if ctx.thorough else 3
+    if not hits:
+        for _ in range(nsw):
+            h = search_nan_sweep(rng.randint(0, 2**31 - 1))
+            if h:
+                hits.append(h)
+                break
+    nh = 20 if ctx.thorough else 8
+    if not hits:
+        for _ in range(nh):
+            h = search_history(rng.randint(0, 2**31 - 1))
+            if h:
+                hits.append(h)
+                break
     worst = 0.0
     nrec = 20 if ctx.thorough else 8
     if not hits:
@@ -981,7 +1231,9 @@ def search(ctx, broken):
                 worst = max(worst, h['rel_diff'])
     ctx.notes.append(f"searcher: {n} random float problems (identity vs implementation and an independent numpy "
                      f"oracle, electric and magnetic, NaN policy), {nb} multi-receiver problems (6 orientation sets incl. "
-                     f"cancelling ones x electric/magnetic x tuple/list form), {nrec} reciprocity solves "
+                     f"cancelling ones x electric/magnetic x tuple/list form), {nsw} NaN sweeps on grids with large/negative "
+                     f"origins (both methods, both field types, 3 input forms), {nh} 12-step source-field histories "
+                     f"on one grid object, {nrec} reciprocity solves "
                      f"(worst relative deviation {worst:.2e}, tol 1e-9)")
     return hits
 
@@ -990,6 +1242,10 @@ def replay(ctx, payload):
     fi = payload.get('failing_input')
     if not fi or 'np_seed' not in fi:
         return False
+    if fi.get('kind') == 'nan_sweep':
+        return search_nan_sweep(fi['np_seed']) is None
+    if fi.get('kind') == 'history':
+        return search_history(fi['np_seed']) is None
     if fi.get('kind') == 'batch':
         return search_batch(fi['np_seed']) is None
     if fi.get('kind') == 'reciprocity':
